@@ -4,6 +4,7 @@ package c20suite
 
 import (
 	"errors"
+	"fmt"
 	"io"
 	"sort"
 	"strings"
@@ -50,6 +51,9 @@ var Deviants = []string{
 	// a successful call returns a non-nil error interface holding a nil pointer (the classic typed-nil mistake)
 	"Chtimes:typed-nil-error", "Mkdir:typed-nil-error", "Chmod:typed-nil-error", "Remove:typed-nil-error",
 	// an operation that should succeed fails with an "operation not supported" errno that is NOT ErrNotImplemented
+	// the correct *PathError wrapped in another error type; io.EOF wrapped in a *PathError on a ReadAt that fills the buffer
+	"Mkdir:wrapped-patherror", "Open:wrapped-patherror", "OpenFile:wrapped-patherror", "Remove:wrapped-patherror", "Stat:wrapped-patherror", "Chmod:wrapped-patherror", "Chtimes:wrapped-patherror",
+	"ReadAt:wrapped-eof-on-full-read",
 	"Rename:fails-eopnotsupp", "Rename:cross-dir-fails-enotsup", "Mkdir:fails-eopnotsupp", "MkdirAll:fails-enotsup", "Remove:fails-eopnotsupp", "Chmod:fails-enotsup", "Chtimes:fails-eopnotsupp", "OpenFile:create-fails-eopnotsupp",
 }
 
@@ -229,6 +233,12 @@ func (d *DevFS) errDev(op string, err error) error {
 		if e, ok := err.(*hackpadfs.LinkError); ok {
 			d.fire()
 			return &hackpadfs.LinkError{Op: e.Op, Old: e.Old, New: e.Old, Err: e.Err}
+		}
+	case op + ":wrapped-patherror":
+		// the right *PathError, but inside another error: callers (and the documentation) promise the type itself
+		if _, ok := err.(*hackpadfs.PathError); ok {
+			d.fire()
+			return fmt.Errorf("while working: %w", err)
 		}
 	case op + ":wrong-errtype":
 		switch e := err.(type) {
@@ -792,6 +802,11 @@ func (f *devFile) readAt(p []byte, off int64) (int, error) {
 	}
 	n, err := hackpadfs.ReadAtFile(f.f, p, off)
 	switch {
+	case d.is("ReadAt:wrapped-eof-on-full-read") && n == len(p) && n > 0 && (err == nil || err == io.EOF):
+		if info, serr := f.f.Stat(); serr == nil && off+int64(n) == info.Size() {
+			d.fire()
+			return n, &hackpadfs.PathError{Op: "readat", Path: info.Name(), Err: io.EOF} // io.ReaderAt promises io.EOF itself
+		}
 	case d.is("ReadAt:wrong-bytes") && n > 0:
 		d.fire()
 		p[0] ^= 0x01
